@@ -20,3 +20,7 @@ from contracts.C05_dtype_receivers import CONTRACTS as DTYPE_CHECKS  # exit.only
 
 CONTRACTS = [ContainerValidate, SeriesSchemaValidate, ArrayValidate, IndexValidate, ColumnValidateRestoresSchema, RunSchemaComponentChecks,
              ConfigContext, PolarsSubsample, PandasDropInvalidRows, PolarsDropInvalidRows, PolarsContainerValidate, PolarsColumnValidate, MultiIndexValidate, PolarsRunSchemaComponentChecks, PolarsAddMissingColumns, PolarsSetDefault, PolarsColumnCollect, PolarsCoerceFailureCases, IsFloatDtype, PolarsCheckNullable, PolarsFailureCasesReport] + list(POLARS_API) + list(DTYPE_CHECKS)
+
+from contracts.C02_coerce_helper import CoerceDtypeHelper  # noqa: E402  (failures leave no trace: the schema's components after a coercion error, incl. the MultiIndex exit)
+
+CONTRACTS += [CoerceDtypeHelper]
